@@ -534,4 +534,48 @@ macro_rules! block_op_fixed {
         }
     };
 }
+/// C14 framing across the 2^7 boundary: one entry whose value is L bytes (L concrete 127 / 128 / 129, contents symbolic) written by
+/// the real BlockWriter and read back by the real Block::entry_at: lengths, first/last value bytes and the next offset are exact
+/// (two-byte varint from 128 on).
+fn frame_check(vlen: usize) {
+    let key: [u8; 1] = kani::any();
+    let val: [u8; 130] = kani::any();
+    let mut bw = BlockWriter::new();
+    bw.insert(&key[..], &val[..vlen]);
+    let (buffer, index_offsets, payload_size) = crate::block_writer::verif_h::finish_parts(bw);
+    let vl_bytes = if vlen < 128 { 1 } else { 2 };
+    assert!(payload_size == 1 + vl_bytes + 1 + vlen, "C14: framed size");
+    let block = Block { compression_type: CompressionType::None, buffer, payload_size, index_offsets };
+    match block.entry_at(0) {
+        Some((k, v, next)) => {
+            assert!(k.len() == 1 && k[0] == key[0], "C14: key altered by the framing");
+            assert!(v.len() == vlen, "C14: value length altered by the framing");
+            assert!(v[0] == val[0] && v[vlen - 1] == val[vlen - 1], "C14: value bytes altered by the framing");
+            let p: usize = kani::any();
+            kani::assume(p < vlen);
+            assert!(v[p] == val[p], "C14: value bytes altered by the framing");
+            assert!(next == payload_size, "C14: the entry must consume exactly its framing");
+        }
+        None => panic!("C14: entry lost"),
+    }
+    assert!(block.entry_at(payload_size).is_none());
+    kani::cover!(true);
+    mem::forget(block);
+}
+#[kani::proof]
+#[kani::unwind(10)]
+fn c14_frame_127() {
+    frame_check(127);
+}
+#[kani::proof]
+#[kani::unwind(10)]
+fn c14_frame_128() {
+    frame_check(128);
+}
+#[kani::proof]
+#[kani::unwind(10)]
+fn c14_frame_129() {
+    frame_check(129);
+}
+
 include!("block_gen.rs");
